@@ -35,8 +35,18 @@ def run_property(pid: str, tier: str, seed: int) -> int:
         print(f"MACHINERY-FAILURE property={pid}: {e}", file=sys.stderr)
         ctx.cleanup()
         return 2
-    except Exception:  # noqa: BLE001
+    except Exception as ex:  # noqa: BLE001
         traceback.print_exc()
+        # An exception RAISED INSIDE the code under test that escapes through a call the harness makes on the
+        # unchanged tree without any exception (every check passes there) is behaviour of the code, not a failure of
+        # the machinery: it is reported as a violation.  Anything raised by the harness itself stays exit 2.
+        tb = traceback.extract_tb(ex.__traceback__)
+        lib = str(Path(REPO).resolve() / "aioesphomeapi")
+        if tb and str(Path(tb[-1].filename).resolve()).startswith(lib) and not isinstance(ex, (TLCFailure, KeyboardInterrupt)):
+            where = f"{Path(tb[-1].filename).name}:{tb[-1].name}"
+            ctx.violation(f"Harness/escaped/{type(ex).__name__}/{where}",
+                          {"kind": "escaped", "exception": repr(ex)[:500], "traceback": traceback.format_exc()[-4000:]})
+            return ctx.finish()
         print(f"MACHINERY-FAILURE property={pid}", file=sys.stderr)
         ctx.cleanup()
         return 2
@@ -51,6 +61,10 @@ def main() -> int:
     a = ap.parse_args()
     if a.what == "replay":
         case = json.loads(Path(a.arg).read_text())
+        if case.get("kind") == "escaped":
+            # an exception of the code under test that escaped into the harness: re-run the check that met it
+            print(case.get("traceback", ""))
+            return run_property(case["property"], case.get("tier", "quick"), case.get("seed", 0))
         mod = importlib.import_module(f"vf.props.{case['property'].lower()}")
         ctx = Ctx(case["property"], case.get("tier", "quick"), case.get("seed", 0))
         try:
